@@ -427,8 +427,20 @@ def check_config(sh, mods, pars, sc, fc, om, case, full=True):
         pbp.parglobal = par_mod.parameters(**pars)
         si, sj, ystep = 3, -2, 1.5
         so, co = np.sin(np.radians(om)), np.cos(np.radians(om))
-        gvl, gx_, gy_, gz_ = pbp.get_local_gv(si, sj, ystep, om, so, co, xyz[0].copy(), xyz[1].copy(), xyz[2].copy())
+        # the peak arrays are the caller's (the same lab coordinates serve every voxel): they are what they were afterwards, and a
+        # second voxel computed from the same arrays is right too
+        xa, ya, za = xyz[0].copy(), xyz[1].copy(), xyz[2].copy()
+        gvl, gx_, gy_, gz_ = pbp.get_local_gv(si, sj, ystep, om, so, co, xa, ya, za)
+        if not (np.array_equal(xa, xyz[0]) and np.array_equal(ya, xyz[1]) and np.array_equal(za, xyz[2])):
+            sh.violation("point_by_point.get_local_gv:modifies-the-peak-coordinates-it-is-given", case, {"max_change_x": float(np.abs(xa - xyz[0]).max())})
+            return False
         from ImageD11.sinograms import geometry
+        gvl_b = pbp.get_local_gv(-4, 5, ystep, om, so, co, xa, ya, za)[0]
+        sxb, syb = geometry.step_to_sample(-4, 5, ystep)
+        xyzb = xyz.copy(); xyzb[0] -= sxb * co - syb * so
+        tb_, eb_ = tr.compute_tth_eta_from_xyz(xyzb, ome)
+        ok &= cmp(sh, "point_by_point.get_local_gv[second voxel, same arrays]", case, gvl_b.T,
+                  tr.compute_g_vectors(tb_, eb_, ome, pars["wavelength"], wedge=pars["wedge"], chi=pars["chi"]), 1e-12)
         sx, sy = geometry.step_to_sample(si, sj, ystep)
         xyz3 = xyz.copy(); xyz3[0] -= sx * co - sy * so
         t3, e3 = tr.compute_tth_eta_from_xyz(xyz3, ome)
